@@ -1,16 +1,18 @@
 """C15 -- event streams are well formed and aborts latch the plan, at every abort point.
 
-Correspondence: real `Plan`s (a sequence of optimizer / evaluator steps on one plan, optionally with a
-nested plan run inside every outer evaluation) with recording handlers (a handler plug-in registered
-through PluginManager.add_plugin) on every plan level, recording observers for all event types and a
-recording evaluator.  Every delivery (recipient, emitting step, event type) and every evaluator call
-is one entry of a global log; the entry with index k raises OptimizationAborted(USER_ABORT).  The
-unaborted log, the aborted log, the exit code of every run_step call, the Plan.aborted flags and the
-PlanAborted behaviour of a further run_step are compared exactly with Model/Events.v inside Coq.
+Correspondence: real `Plan`s (a sequence of optimizer / evaluator steps on one plan -- a step object may be run
+again --, optionally with nested plans to depth 3 run inside every evaluation of the level above) with recording
+handlers (a handler plug-in registered through PluginManager.add_plugin) on every plan level, recording observers
+registered for all or for some event types, and a recording evaluator; and `BasicOptimizer` runs with a recording
+handler passed through its keyword arguments, its abort callback and its results callback.  Every delivery
+(recipient, emitting step, event type) and every evaluator call is one entry of a global log; the entry with
+index k raises OptimizationAborted(USER_ABORT).  The unaborted log, the aborted log, the exit code of every
+run_step call, the Plan.aborted flags of every level and the PlanAborted behaviour of a further run_step are
+compared exactly with Model/Events.v inside Coq.
 """
 from __future__ import annotations
 
-import itertools
+import json
 
 import coqio as cq
 from props import C14 as c14
@@ -21,34 +23,45 @@ CHK_MODULE = "Check.Chk_C15"
 CASE_TYPE = "Chk_C15.case"
 CHECK_FN = "Chk_C15.check_case"
 HEADER = "From Ropt Require Import Model.Step Model.Events."
-SHARD_SIZE = 250
+SHARD_SIZE = 120
 PARALLEL = True
 CASE_TIMEOUT = 60
 EXHAUSTIVE = {"quick": True, "thorough": True}
 ALLOWED_AXIOMS: list[str] = []
 
 RULE = ("exhaustive over abort points: for every scenario of a fixed family (optimizer step with <= 4 evaluations incl. batches, "
-        "gradient requests, NaN failures -> TOO_FEW and max_functions stops; evaluator step; sequences of two and three steps; "
-        "nested plans with outer <= 2 x inner <= 2 evaluations, failures and budget stops inside the inner and the outer run) and "
-        "handler/observer layouts (1-2 handlers per plan level, 1-2 observers per event type), EVERY index k of the unaborted "
-        "delivery log (each delivery to a handler or observer and each evaluator call) is used as the abort point, plus k = none; "
-        "thorough adds seeded random scenarios, again with every abort index.  Non-trivial = an abort was raised (k inside the log); "
-        "distinct = distinct (scenario, k).")
+        "gradient requests, NaN failures -> TOO_FEW and max_functions stops; evaluator step, also with a failing evaluation; sequences "
+        "of two to four steps, also re-running a step object; nested plans of depth 2 (outer <= 2 x inner <= 2 evaluations) and "
+        "depth 3, with failures, budget stops and empty trackers (NESTED_OPTIMIZER_FAILED) inside the inner, middle and outer run; "
+        "BasicOptimizer with its abort and results callbacks) and handler/observer layouts (0-3 handlers per plan level, 0-2 "
+        "observers registered for all or for some event types), EVERY index k of the unaborted delivery log (each delivery to a "
+        "handler or observer and each evaluator call) is used as the abort point, plus k = none; thorough adds seeded random "
+        "scenarios, again with every abort index.  Non-trivial = an abort was raised (k inside the log); distinct = distinct "
+        "(scenario, layout, k).")
 ASSUMPTIONS = [
     "handlers, observers and the evaluator have no effect on the run other than raising the abort at the chosen delivery index",
-    "the abort is OptimizationAborted(USER_ABORT); other exceptions raised by handlers are outside the property",
-    "the nested plan function runs the inner optimizer step and returns the inner tracker's result (None when no nested "
-    "evaluation has produced function values yet: the outer step then ends with NESTED_OPTIMIZER_FAILED)",
+    "the abort is OptimizationAborted(USER_ABORT); other exceptions raised by handlers are outside the property (exceptions "
+    "raised by the evaluator are C14: they must leave every level without a FINISHED event)",
+    "the nested plan function runs the nested plan's optimizer step and returns that plan's tracker result (None when no "
+    "evaluation of that step has produced function values yet: the step above then ends with NESTED_OPTIMIZER_FAILED)",
     "nested runs use no transforms (known finding C11:explicit-step-variables)",
+    "every event has at least one recipient on every level (otherwise a step's START would be invisible in the log)",
 ]
 TRUSTED = [
-    "the recording handler plug-in, observers, evaluator and scripted optimizer plug-in of harness/props/C15.py and C14.py",
+    "the recording handler plug-ins, observers, callbacks, evaluator and scripted optimizer plug-in of harness/props/C15.py and C14.py",
     "step bodies (which evaluations happen, where too-few / budget stops occur) come from the C14 machine Model/Step.v",
+    "the BasicOptimizer runs register the plug-ins with the plug-in manager of the object's private OptimizerContext",
 ]
+# BasicOptimizer.run() registers the callbacks with the shared context again on every call, so a second run() on the same
+# object delivers every event twice to each callback (reported to the lead; no entry in known_findings.json): the stream
+# that runs one BasicOptimizer twice stays disabled.
+BASIC_RERUN = False
 
 EV = c14.EV
 USER_ABORT = 4
-OBS_BASE, INNER_BASE, CALL = 20, 10, -1
+CALL = -1
+OBS_BASE, ABORT_CB, RESULTS_CB = 40, 50, 51
+ALL_EVENTS = [1, 2, 3, 4, 5, 6]
 
 
 # ---------------------------------------------------------------------------------------------
@@ -65,8 +78,10 @@ def _env():
     from ropt.plugins.plan.base import PlanHandlerPlugin, ResultHandler
 
     class Rec(ResultHandler):
-        def __init__(self, plan, *, tag, world):
+        def __init__(self, plan, *, tag=None, world=None, sources=None, verifbasic=None):
             super().__init__(plan)
+            if verifbasic is not None:                 # created by BasicOptimizer from its keyword arguments
+                tag, world = verifbasic["tag"], verifbasic["world"]
             self.tag = tag
             self.world = world
 
@@ -81,7 +96,7 @@ def _env():
             return Rec(plan, **kw)
 
         def is_supported(self, method):
-            return method.lower() == "verifrec"
+            return method.lower() in ("verifrec", "verifbasic")
 
     _ENV = {"RecPlugin": RecPlugin, "ropt": ropt}
     return _ENV
@@ -94,23 +109,31 @@ class World:
         self.names = {}
         self.mute = False
 
-    def _hit(self):
+    def hit(self):
+        return self.k is not None and len(self.log) - 1 == self.k
+
+    def _raise_if_hit(self):
         from ropt.enums import OptimizerExitCode
         from ropt.exceptions import OptimizationAborted
-        if self.k is not None and len(self.log) - 1 == self.k:
+        if self.hit():
             raise OptimizationAborted(exit_code=OptimizerExitCode.USER_ABORT)
 
     def deliver(self, who, event):
         if self.mute:
             return
-        self.log.append([who, self.names.get(event.source, 99), int(event.event_type.value)])
-        self._hit()
+        self.log.append([who, self.names.get(event.source, 999), int(event.event_type.value)])
+        self._raise_if_hit()
+
+    def note(self, who, sid, ev):
+        """A callback that is not handed the event (BasicOptimizer's abort callback); returns whether it aborts."""
+        self.log.append([who, sid, ev])
+        return self.hit()
 
     def call(self):
         if self.mute:
             return
         self.log.append([CALL, 0, 0])
-        self._hit()
+        self._raise_if_hit()
 
 
 class RecEvaluator(c14.FaultEvaluator):
@@ -123,11 +146,8 @@ class RecEvaluator(c14.FaultEvaluator):
         return super().__call__(variables, ctx)
 
 
-def _cfg14(spec):
-    """C14-style configuration dictionary of a step specification."""
-    return {"R": spec["R"], "P": 1, "rmin": spec["rmin"], "pmin": 1, "allow_nan": spec["allow_nan"], "maxf": spec.get("maxf"),
-            "filter": None, "estimator": "mean", "transform": "none", "order": list(range(spec["R"])), "bounds": False,
-            "linear": False}
+def _events_of(ob):
+    return ALL_EVENTS if ob["events"] == "all" else ob["events"]
 
 
 def _scenario(case, k):
@@ -135,77 +155,104 @@ def _scenario(case, k):
     warnings.simplefilter("ignore")
     from ropt.enums import EventType
     from ropt.exceptions import PlanAborted
-    from ropt.plan import OptimizerContext, Plan
+    from ropt.plan import BasicOptimizer, OptimizerContext, Plan
     from ropt.plugins import PluginManager
     env14 = c14._env()
     env = _env()
     Scripted = env14["Scripted"]
     w = World(k)
+    evaluator = RecEvaluator(w)
+    Scripted.evaluator = evaluator
+    by_value = {int(et.value): et for et in EventType}
+    exits = []
+    if case.get("basic"):
+        try:
+            spec = case["steps"][0]
+            c = spec["case"]
+            Scripted.queue[:] = [c14.spec_of(c14.root(c), c["allow_nan"])]
+            opt = BasicOptimizer(c14.make_config(c), evaluator, verifbasic={"tag": 0, "world": w})
+            octx = opt._optimizer_context
+            octx.plugin_manager.add_plugin("optimizer", "verifscript", env14["ScriptedPlugin"]())
+            octx.plugin_manager.add_plugin("plan_handler", "verifbasic", env["RecPlugin"]())
+            for ob in case["observers"]:
+                if ob["id"] in (ABORT_CB, RESULTS_CB):
+                    continue
+                for v in _events_of(ob):
+                    octx.add_observer(by_value[v], lambda ev, j=ob["id"]: w.deliver(j, ev))
+            # the step of the plan BasicOptimizer builds is not known beforehand: its events are the only ones
+            w.names = _Anything(0)
+            opt.set_abort_callback(lambda: w.note(ABORT_CB, 0, EV["SE"]))
+
+            def results_cb(results):
+                w.log.append([RESULTS_CB, 0, EV["FE"]])
+                w._raise_if_hit()
+
+            opt.set_results_callback(results_cb)
+            opt.run()
+            exits.append([0, int(opt.exit_code.value)])
+            return {"log": w.log, "exits": exits, "flags": [], "probe": "n/a"}
+        except BaseException as e:  # noqa: BLE001 - the class is the observation
+            return {"log": w.log, "exits": exits, "flags": [], "probe": "n/a", "exc": type(e).__name__}
     pm = PluginManager()
     pm.add_plugin("optimizer", "verifscript", env14["ScriptedPlugin"]())
     pm.add_plugin("plan_handler", "verifrec", env["RecPlugin"]())
-    evaluator = RecEvaluator(w)
     ctx = OptimizerContext(evaluator=evaluator, plugin_manager=pm)
-    for j in range(case["observers"]):
-        for et in EventType:
-            ctx.add_observer(et, lambda ev, j=j: w.deliver(OBS_BASE + j, ev))
-
-    Scripted.evaluator = evaluator
-    exits = []
+    for ob in case["observers"]:
+        for v in _events_of(ob):
+            ctx.add_observer(by_value[v], lambda ev, j=ob["id"]: w.deliver(j, ev))
     try:
-        outer = Plan(ctx)
-        for j in range(case["handlers"][0]):
-            outer.add_handler("verifrec", tag=j, world=w)
-        inner = None
-        if any(s.get("inner") is not None for s in case["steps"]):
-            inner = Plan(ctx)
-            ist = inner.add_step("optimizer")
-            w.names[ist] = 100
-            itr = inner.add_handler("tracker", sources={ist})
-            for j in range(case["handlers"][1]):
-                inner.add_handler("verifrec", tag=INNER_BASE + j, world=w)
-            state = {"cfg": None}
+        plans = [Plan(ctx) for _ in case["plans"]]
+        nsteps, trackers = {}, {}
+        for j, p in enumerate(plans):
+            if j > 0:
+                nsteps[j] = p.add_step("optimizer")
+                w.names[nsteps[j]] = 100 * j
+                trackers[j] = p.add_handler("tracker", sources={nsteps[j]})
 
-            def f(plan, variables):
-                try:
-                    code = plan.run_step(ist, config=state["cfg"], variables=variables)
-                    exits.append([100, int(code.value)])
-                except PlanAborted:
-                    exits.append([100, -2])
-                return inner.get(itr, "results")
+                def f(plan, variables, j=j):
+                    spec = Scripted.queue[0]          # the optimizer created next is the one of this nested run
+                    kw2 = {"nested_optimization": plans[j + 1]} if spec["nested"] else {}
+                    try:
+                        code = plan.run_step(nsteps[j], config=spec["config"], variables=variables, **kw2)
+                        exits.append([100 * j, int(code.value)])
+                    except PlanAborted:
+                        exits.append([100 * j, -2])
+                    return plan.get(trackers[j], "results")
 
-            inner.add_function(f)
-        for i, spec in enumerate(case["steps"]):
-            st = outer.add_step(spec["type"])
-            w.names[st] = i
-            c14case = _cfg14(spec)
-            cfg = c14.make_config(c14case)
+                p.add_function(f)
+            for i in range(case["plans"][j]):
+                p.add_handler("verifrec", tag=10 * j + i, world=w)
+        outer = plans[0]
+        objects = {}
+        for spec in case["steps"]:
+            sid = spec["sid"]
+            if sid not in objects:
+                objects[sid] = outer.add_step(spec["type"])
+                w.names[objects[sid]] = sid
+            st = objects[sid]
+            c = spec["case"]
+            cfg = c14.make_config(c)
             try:
                 if spec["type"] == "optimizer":
-                    Scripted.queue[:] = [{"script": spec["script"], "allow_nan": spec["allow_nan"], "case14": c14case}]
-                    kw = {}
-                    if spec.get("inner") is not None:
-                        ic = _cfg14(spec["inner"])
-                        state["cfg"] = c14.make_config(ic)
-                        for sc in spec["inner"]["scripts"]:
-                            Scripted.queue.append({"script": sc, "allow_nan": spec["inner"]["allow_nan"], "case14": ic})
-                        kw["nested_optimization"] = inner
+                    tree = c14.root(c)
+                    Scripted.queue[:] = [c14.spec_of(tree, c["allow_nan"])]
+                    kw = {"nested_optimization": plans[1]} if c14.depth(tree) > 0 else {}
                     code = outer.run_step(st, config=cfg, **kw)
                 else:
-                    req = spec["script"][0]
-                    evaluator.pending, evaluator.pcase = req.get("fault"), c14case
+                    req = c["script"][0]
+                    evaluator.pending, evaluator.pcase = req.get("fault"), c
                     variables = ([[0.25 * (req["pt"] + j), 0.0] for j in range(req["batch"])] if req["batch"] > 0
                                  else [0.25 * req["pt"], 0.0])
                     code = outer.run_step(st, config=cfg, variables=variables)
-                exits.append([i, int(code.value)])
+                exits.append([sid, int(code.value)])
             except PlanAborted:
-                exits.append([i, -2])
-        flags = [bool(outer.aborted), bool(inner.aborted) if inner is not None else False]
+                exits.append([sid, -2])
+        flags = [bool(p.aborted) for p in plans]
         # latch probe: one more step, recording switched off
         w.mute = True
         w.k = None
         probe = outer.add_step("evaluator")
-        evaluator.pending, evaluator.pcase = None, _cfg14({"R": 1, "rmin": 1, "allow_nan": False})
+        evaluator.pending, evaluator.pcase = None, _c14case(1, 1, False, None, [_req("F")])
         try:
             outer.run_step(probe, config=c14.make_config(evaluator.pcase))
             probe_out = "ran"
@@ -213,11 +260,28 @@ def _scenario(case, k):
             probe_out = "PlanAborted"
         return {"log": w.log, "exits": exits, "flags": flags, "probe": probe_out}
     except BaseException as e:  # noqa: BLE001 - the class is the observation
-        return {"log": w.log, "exits": exits, "flags": [False, False], "probe": "none", "exc": type(e).__name__}
+        return {"log": w.log, "exits": exits, "flags": [False] * len(case["plans"]), "probe": "none", "exc": type(e).__name__}
+
+
+class _Anything(dict):
+    def __init__(self, v):
+        super().__init__()
+        self.v = v
+
+    def get(self, key, default=None):
+        return self.v
+
+
+_FULL = {}
 
 
 def run_impl(case):
-    full = _scenario(case, None)
+    key = json.dumps({k: v for k, v in case.items() if k != "k"}, sort_keys=True)
+    if key not in _FULL:
+        if len(_FULL) > 64:
+            _FULL.clear()
+        _FULL[key] = _scenario(case, None)
+    full = _FULL[key]
     if case["k"] is None:
         return {"full": full, "run": full}
     return {"full": full, "run": _scenario(case, case["k"])}
@@ -227,12 +291,14 @@ def run_impl(case):
 # independent Python oracle
 # ---------------------------------------------------------------------------------------------
 def _level(sid):
-    return 1 if sid >= 100 else 0
+    return sid // 100
 
 
-def recipients(case, sid):
-    own = [INNER_BASE + j for j in range(case["handlers"][1])] if _level(sid) == 1 else []
-    return own + list(range(case["handlers"][0])) + [OBS_BASE + j for j in range(case["observers"])]
+def recipients(case, sid, ev):
+    out = []
+    for lvl in range(_level(sid), -1, -1):
+        out += [10 * lvl + i for i in range(case["plans"][lvl])]
+    return out + [ob["id"] for ob in case["observers"] if ev in _events_of(ob)]
 
 
 def _is_start_step(ev):
@@ -267,7 +333,7 @@ def predict(case, full, k):
         return list(full)
     log = list(full[:k + 1])
     for sid, fin in reversed(open_steps(log)):
-        log += [[r, sid, fin] for r in recipients(case, sid)]
+        log += [[r, sid, fin] for r in recipients(case, sid, fin)]
     return log
 
 
@@ -280,7 +346,7 @@ def _emissions(case, log, partial_ok):
             out.append((None, "CALL", 1))
             i += 1
             continue
-        rec = recipients(case, sid)
+        rec = recipients(case, sid, ev)
         n = 0
         while n < len(rec) and i + n < len(log) and log[i + n] == [rec[n], sid, ev]:
             n += 1
@@ -294,11 +360,11 @@ def _emissions(case, log, partial_ok):
 
 
 def _bracketed(case, log, k):
-    """Per step: START (SE CALL FE)* [SE [CALL]] FIN, steps properly nested."""
+    """Per step: START (SE CALL FE)* [SE [CALL]] FIN, steps properly nested (a nested step only between the START of the
+    step above / one of its FINISHED_EVALUATIONs and its next START_EVALUATION)."""
     ems = _emissions(case, log, True)
     if ems is None:
         return "delivery-order"
-    # position (log index range) of every emission to relate the abort index to an evaluation
     pos, i = [], 0
     for sid, ev, n in ems:
         pos.append((i, i + n))
@@ -313,6 +379,8 @@ def _bracketed(case, log, k):
         if _is_start_step(ev):
             if stack and stack[-1][1] not in ("idle",):
                 return "step-started-inside-evaluation"
+            if stack and _level(sid) != _level(stack[-1][0]) + 1:
+                return "nested-step-not-one-level-below"
             stack.append([sid, "idle", _fin_of(ev), None])
             continue
         if not stack or stack[-1][0] != sid:
@@ -341,6 +409,11 @@ def _bracketed(case, log, k):
     return None
 
 
+def _no_abort_state(case, o):
+    flags_ok = o["flags"] == ([] if case.get("basic") else [False] * len(case["plans"]))
+    return flags_ok and o["probe"] in ("ran", "n/a") and not any(code in (USER_ABORT, -2) for _, code in o["exits"])
+
+
 def oracle(case, obs):
     full, run = obs["full"], obs["run"]
     for o in (full, run):
@@ -352,7 +425,7 @@ def oracle(case, obs):
     b = _bracketed(case, D, None)
     if b:
         return {"clause": "bracketing-unaborted:" + b, "detail": D[:20]}
-    if any(code == USER_ABORT or code == -2 for _, code in full["exits"]) or full["flags"] != [False, False] or full["probe"] != "ran":
+    if not _no_abort_state(case, full):
         return {"clause": "abort-state-without-abort", "detail": [full["exits"], full["flags"], full["probe"]]}
     aborting = k is not None and k < len(D)
     exp = predict(case, D, k)
@@ -363,13 +436,13 @@ def oracle(case, obs):
     if b:
         return {"clause": "bracketing:" + b, "detail": {"k": k}}
     if not aborting:
-        if run["exits"] != full["exits"] or run["flags"] != [False, False] or run["probe"] != "ran":
+        if run["exits"] != full["exits"] or not _no_abort_state(case, run):
             return {"clause": "no-abort-run-differs", "detail": [run["exits"], run["flags"], run["probe"]]}
         return None
     # latch: steps open at the abort (or whose FINISHED event was being delivered) report USER_ABORT, their plans
     # are aborted, further run_step calls raise PlanAborted
     pre = D[:k + 1]
-    opened = [sid for sid, _ in open_steps(pre)]
+    opened = [sid for sid, _ in open_steps(pre)]            # outermost first
     who, sid, ev = D[k]
     if who != CALL and _is_fin_step(ev) and sid not in opened:
         # the abort arose while the FINISHED event of sid was being delivered (enclosing steps are in `opened`)
@@ -377,7 +450,9 @@ def oracle(case, obs):
     exp_exits = _expected_exits(case, full, opened, k)
     if run["exits"] != exp_exits:
         return {"clause": "abort-latches:exit-codes", "detail": {"k": k, "got": run["exits"], "expected": exp_exits}}
-    exp_flags = [True, any(_level(s) == 1 for s in opened)]
+    if case.get("basic"):
+        return None
+    exp_flags = [True] + [any(_level(s) == j for s in opened) for j in range(1, len(case["plans"]))]
     if run["flags"] != exp_flags:
         return {"clause": "abort-latches:plan-aborted-flags", "detail": {"k": k, "got": run["flags"], "expected": exp_flags}}
     if run["probe"] != "PlanAborted":
@@ -390,13 +465,11 @@ def _expected_exits(case, full, opened, k):
     their code, those open at the abort return USER_ABORT (innermost first), later top-level steps raise PlanAborted."""
     ems = _emissions(case, full["log"][:k + 1], True)
     # completed step runs = FINISHED-step emissions in the prefix, except the aborting emission itself (the last one)
-    done = sum(1 for j, (sid, ev, n) in enumerate(ems) if ev != "CALL" and _is_fin_step(ev) and j < len(ems) - 1)
-    out = [list(x) for x in full["exits"][:done]]
-    tops = [s for s in opened if _level(s) == 0]
-    out += [[s, USER_ABORT] for s in opened if _level(s) == 1]
-    out += [[s, USER_ABORT] for s in tops]
-    last_top = tops[-1] if tops else None
-    out += [[i, -2] for i in range(len(case["steps"])) if last_top is not None and i > last_top]
+    fins = [(sid, ev) for j, (sid, ev, n) in enumerate(ems) if ev != "CALL" and _is_fin_step(ev) and j < len(ems) - 1]
+    out = [list(x) for x in full["exits"][:len(fins)]]
+    out += [[s, USER_ABORT] for s in reversed(opened)]
+    done_top = sum(1 for sid, _ in fins if _level(sid) == 0)     # position of the top-level step that was running
+    out += [[spec["sid"], -2] for spec in case["steps"][done_top + 1:]]
     return out
 
 
@@ -411,83 +484,143 @@ def _req(kind, pt=0, batch=0, fm=None):
     return {"kind": kind, "pt": pt, "batch": batch, "fault": None if fm is None else {"fm": fm}}
 
 
-def _opt(script, R=2, rmin=2, allow=False, maxf=None, inner=None):
-    return {"type": "optimizer", "R": R, "rmin": rmin, "allow_nan": allow, "maxf": maxf, "script": script, "inner": inner}
+def _c14case(R, rmin, allow, maxf, script, tree=None, step="optimizer"):
+    return {"step": step, "R": R, "P": 1, "rmin": rmin, "pmin": 1, "allow_nan": allow, "maxf": maxf, "filter": None,
+            "estimator": "mean", "transform": "none", "order": list(range(R)), "bounds": False, "linear": False,
+            "script": script, "nested": None, "tree": tree}
 
 
-def _evs(batch=0, fm=None, R=2, rmin=2):
-    return {"type": "evaluator", "R": R, "rmin": rmin, "allow_nan": False, "maxf": None,
-            "script": [_req("F", 0, batch, fm)], "inner": None}
+def _node(script, subs=None, rmin=2, maxf=None):
+    return {"rmin": rmin, "maxf": maxf, "script": script, "subs": subs or [None] * len(script)}
 
 
-def _inner(scripts, R=2, rmin=2, maxf=None):
-    return {"R": R, "rmin": rmin, "allow_nan": False, "maxf": maxf, "scripts": scripts}
+def _opt(script, R=2, rmin=2, allow=False, maxf=None, tree=None, sid=None):
+    return {"type": "optimizer", "sid": sid, "case": _c14case(R, rmin, allow, maxf, script, tree)}
 
 
-OK2 = None
+def _evs(batch=0, fm=None, R=2, rmin=2, sid=None):
+    return {"type": "evaluator", "sid": sid, "case": _c14case(R, rmin, False, None, [_req("F", 0, batch, fm)], None, "evaluator")}
+
+
+def _number(steps):
+    """Step ids: position in the sequence unless the step re-runs an earlier step object (sid given)."""
+    out = []
+    for i, s in enumerate(steps):
+        out.append({**s, "sid": i if s.get("sid") is None else s["sid"]})
+    return out
+
+
 BAD = [[False, True]]
+ALLBAD = [[True, True]]
 
 
 def scenario_family(tier):
-    """(name, steps) -- the fixed scenarios whose every abort index is enumerated."""
+    """(name, steps, basic) -- the fixed scenarios whose every abort index is enumerated."""
     F, G, FG = _req("F"), _req("G"), _req("FG")
+    F1 = _req("F", 1)
     fam = [
-        ("opt-FGFG", [_opt([F, G, _req("F", 1), _req("G", 1)])]),
+        ("opt-FGFG", [_opt([F, G, F1, _req("G", 1)])]),
         ("opt-FG-batch", [_opt([FG, _req("F", 0, 2), F])]),
         ("opt-toofew-mid", [_opt([F, _req("F", 1, 0, BAD), F])]),
         ("opt-budget", [_opt([F, F, F, F], maxf=2)]),
-        ("opt-nan-tolerant", [_opt([F, _req("F", 1, 0, [[True, True]]), F], rmin=0, allow=True)]),
+        ("opt-nan-tolerant", [_opt([F, _req("F", 1, 0, ALLBAD), F], rmin=0, allow=True)]),
         ("eval", [_evs()]),
+        ("eval-toofew", [_evs(0, BAD)]),
         ("eval-batch-toofew", [_evs(2, [[False, False], [True, False]])]),
         ("two-steps", [_opt([F, G]), _evs()]),
         ("three-steps", [_evs(), _opt([F, _req("F", 1, 0, BAD)]), _opt([FG])]),
-        ("nested-2x2", [_opt([F, _req("F", 1)], inner=_inner([[F, _req("F", 1)], [F, G]]))]),
-        ("nested-budget-toofew", [_opt([F, F, F], maxf=2, inner=_inner([[F, F, F], [F, _req("F", 1, 0, BAD), F], [F]], maxf=2))]),
-        ("nested-then-eval", [_opt([FG], inner=_inner([[F]])), _evs()]),
-        ("nested-outer-toofew", [_opt([_req("F", 0, 0, BAD), F], inner=_inner([[F], [F]]))]),
-        ("nested-no-result", [_opt([F, F], inner=_inner([[_req("F", 0, 0, BAD), F], [F]]))]),
-        ("nested-no-result-then-steps", [_opt([F], inner=_inner([[_req("FG", 0, 0, BAD)]])), _evs(),
-                                         _opt([F, F], inner=_inner([[F], [_req("F", 1, 0, BAD)]]))]),
+        ("rerun-steps", [_opt([F]), _evs(0, BAD), _opt([F, F1, F], sid=0, maxf=2, rmin=1), _evs(sid=1, rmin=1)]),
+        ("nested-2x2", [_opt([F, F1], tree=[_node([F, F1]), _node([F, G])])]),
+        ("nested-budget-toofew", [_opt([F, F, F], maxf=2, tree=[_node([F, F, F], maxf=2), _node([F, _req("F", 1, 0, BAD), F], maxf=2),
+                                                              _node([F], maxf=2)])]),
+        ("nested-then-eval", [_opt([FG], tree=[_node([F])]), _evs()]),
+        ("nested-outer-toofew", [_opt([_req("F", 0, 0, BAD), F], tree=[_node([F]), _node([F])])]),
+        ("nested-no-result", [_opt([F, F], tree=[_node([_req("F", 0, 0, BAD), F]), _node([F])])]),
+        ("nested-no-result-then-steps", [_opt([F], tree=[_node([_req("FG", 0, 0, BAD)])]), _evs(),
+                                         _opt([F, F], tree=[_node([F]), _node([_req("F", 1, 0, BAD)])])]),
+        ("nested3-1x1x2", [_opt([F], tree=[_node([FG], [_node([F, G])])])]),
+        ("nested3-2x2x1", [_opt([F, F1], tree=[_node([F, F1], [_node([F]), _node([FG])]), _node([F], [_node([F1])])])]),
+        ("nested3-inner-no-result", [_opt([F, F], tree=[_node([F, F], [_node([_req("F", 0, 0, BAD)]), _node([F])]),
+                                                       _node([F], [_node([F])])])]),
+        ("nested3-middle-toofew-then-eval", [_opt([F], tree=[_node([_req("F", 0, 0, BAD), F], [_node([F]), _node([F])])]), _evs()]),
+        ("nested3-budgets", [_opt([F, F, F], maxf=2, tree=[_node([F, F], [_node([F, F], maxf=1), _node([F])], maxf=1),
+                                                          _node([F], [_node([FG])]), _node([F], [_node([F])])])]),
+    ]
+    basic = [
+        ("basic-FGF", [_opt([F, G, F1])]),
+        ("basic-toofew", [_opt([F, _req("F", 1, 0, BAD), F])]),
+        ("basic-budget-batch", [_opt([_req("F", 0, 2), F, F], maxf=2)]),
     ]
     if tier == "thorough":
         fam += [
             ("opt-long", [_opt([F, G, FG, _req("F", 1, 3), _req("G", 1), _req("FG", 2)])]),
-            ("nested-3x3", [_opt([F, G, _req("F", 1)], inner=_inner([[F, G, FG], [F, _req("F", 1), _req("G", 1)], [FG, F, F]]))]),
-            ("nested-two-nested-steps", [_opt([F], inner=_inner([[F, F]])), _opt([F, F], inner=_inner([[F], [FG]]))]),
+            ("nested-3x3", [_opt([F, FG, F1], tree=[_node([F, G, FG]), _node([F, F1, _req("G", 1)]), _node([FG, F, F])])]),
+            ("nested-two-nested-steps", [_opt([F], tree=[_node([F, F])]), _opt([F, F], tree=[_node([F]), _node([FG])])]),
             ("four-steps", [_evs(), _evs(2), _opt([F]), _evs()]),
+            ("nested3-two-steps", [_opt([F], tree=[_node([F], [_node([_req("F", 0, 0, BAD)])])]),
+                                   _opt([F, F], tree=[_node([F], [_node([F])]), _node([F, F], [_node([F, G]), _node([F])])])]),
         ]
-    return fam
+        basic += [("basic-long", [_opt([F, G, FG, _req("F", 1, 3), _req("G", 1)])])]
+    return [(n, _number(s), False) for n, s in fam] + [(n, _number(s), True) for n, s in basic]
 
 
-LAYOUTS = {"quick": [([1, 1], 1), ([2, 1], 1), ([1, 2], 2)], "thorough": [([1, 1], 1), ([2, 1], 1), ([1, 2], 2), ([2, 2], 2), ([3, 1], 1)]}
+def _obs(*specs):
+    return [{"id": OBS_BASE + i, "events": e} for i, e in enumerate(specs)]
+
+
+# (handlers per plan level, observers).  Every event has a recipient on every level in each of them.
+LAYOUTS = [
+    ([1, 1, 1], _obs("all")),
+    ([2, 1, 1], _obs("all")),
+    ([1, 2, 1], _obs("all", "all")),
+    ([0, 1, 2], _obs("all", [1, 2])),
+    ([1, 0, 0], _obs([3, 4, 5, 6], [1])),
+    ([3, 0, 1], []),
+]
+BASIC_LAYOUTS = [
+    ([1], _obs("all") + [{"id": ABORT_CB, "events": [1]}, {"id": RESULTS_CB, "events": [2]}]),
+    ([1], _obs("all", [2, 4]) + [{"id": ABORT_CB, "events": [1]}, {"id": RESULTS_CB, "events": [2]}]),
+]
+
+
+def _depth(steps):
+    return max([0] + [c14.depth(c14.root(s["case"])) for s in steps if s["type"] == "optimizer"])
 
 
 def _random_scenario(rng):
-    def rreq(allow_batch=True):
-        kind = rng.choice(["F", "F", "G", "FG"])
+    def rreq(allow_batch=True, kinds=("F", "F", "G", "FG")):
+        kind = rng.choice(kinds)
         batch = rng.choice([0, 0, 0, 1, 2]) if kind == "F" and allow_batch else 0
         fm = None
         if rng.random() < 0.2:
             fm = [[rng.random() < 0.5 for _ in range(2)] for _ in range(max(1, batch))]
         return _req(kind, rng.choice([0, 1]), batch, fm)
+
+    def rnode(levels):
+        n = rng.randint(1, 2)
+        if levels == 0:
+            sc = ([_req("F")] if rng.random() < 0.7 else []) + [rreq(False) for _ in range(rng.randint(1, 2))]
+            return _node(sc, None, rng.choice([1, 2]), rng.choice([None, 1, 2]))
+        return _node([rreq(False, ("F", "FG")) for _ in range(n)], [rnode(levels - 1) for _ in range(n)], rng.choice([1, 2]),
+                     rng.choice([None, None, 1, 2]))
     steps = []
     for _ in range(rng.randint(1, 3)):
         u = rng.random()
         if u < 0.3:
             b = rng.choice([0, 0, 2])
             steps.append(_evs(b, None if rng.random() < 0.6 else [[rng.random() < 0.4 for _ in range(2)] for _ in range(max(1, b))]))
-        elif u < 0.65:
+        elif u < 0.6:
             steps.append(_opt([rreq() for _ in range(rng.randint(1, 4))], rmin=rng.choice([0, 1, 2]), allow=rng.random() < 0.5,
                               maxf=rng.choice([None, None, 1, 2, 3])))
         else:
             n = rng.randint(1, 3)
-            scripts = []
-            for _ in range(n):
-                sc = ([_req("F")] if rng.random() < 0.7 else []) + [rreq(False) for _ in range(rng.randint(1, 2))]
-                scripts.append(sc)
-            steps.append(_opt([rreq(False) for _ in range(n)], rmin=rng.choice([1, 2]), maxf=rng.choice([None, None, 1, 2]),
-                              inner=_inner(scripts, maxf=rng.choice([None, 1, 2]))))
-    return steps
+            levels = rng.choice([0, 0, 1])
+            steps.append(_opt([rreq(False, ("F", "FG")) for _ in range(n)], rmin=rng.choice([1, 2]), maxf=rng.choice([None, None, 1, 2]),
+                              tree=[rnode(levels) for _ in range(n)]))
+    if len(steps) > 1 and rng.random() < 0.3:
+        j = rng.randrange(len(steps) - 1)
+        steps.append({**steps[j], "sid": j})
+    return _number(steps)
 
 
 def _length_of(case):
@@ -496,15 +629,26 @@ def _length_of(case):
 
 
 def gen_cases(tier, rng):
-    scen = [(name, steps) for name, steps in scenario_family(tier)]
+    scen = scenario_family(tier)
     if tier == "thorough":
         for i in range(60):
-            scen.append((f"random-{i}", _random_scenario(rng)))
-    for name, steps in scen:
-        for handlers, observers in LAYOUTS[tier]:
-            if name.startswith("random") and rng.random() < 0.6:
-                continue
-            base = {"name": name, "handlers": handlers, "observers": observers, "steps": steps}
+            scen.append((f"random-{i}", _random_scenario(rng), False))
+    nl = 0
+    for name, steps, basic in scen:
+        if basic:
+            layouts = BASIC_LAYOUTS if tier == "thorough" else [BASIC_LAYOUTS[nl % 2]]
+        elif tier == "thorough" and not name.startswith("random"):
+            layouts = LAYOUTS
+        else:
+            # quick / random scenarios: two or three layouts per scenario, rotating through all of them
+            layouts = [LAYOUTS[nl % len(LAYOUTS)], LAYOUTS[(nl + 3) % len(LAYOUTS)]]
+            if not name.startswith(("nested3", "random")):
+                layouts.append(LAYOUTS[(nl + 4) % len(LAYOUTS)])
+        nl += 1
+        d = _depth(steps)
+        for plans, observers in layouts:
+            levels = 1 if basic else max(d + 1, 2 if nl % 2 else d + 1)     # sometimes a plan level that is never used
+            base = {"name": name, "plans": plans[:levels], "observers": observers, "steps": steps, "basic": basic}
             n = _length_of(base)
             yield {**base, "k": None}
             for k in range(n + 1):
@@ -514,20 +658,13 @@ def gen_cases(tier, rng):
 # ---------------------------------------------------------------------------------------------
 # Gallina printer
 # ---------------------------------------------------------------------------------------------
-def _spec_term(spec):
-    c = _cfg14(spec)
-    return c14.cfg_term(c), cq.lst(c14._req_term(c, r) for r in spec["script"])
-
-
 def _step_term(spec):
-    cfg, script = _spec_term(spec)
+    c = spec["case"]
     if spec["type"] == "evaluator":
-        return f"(SEval {cfg} {script})"
-    if spec.get("inner") is None:
-        return f"(SOpt {cfg} {script} None)"
-    ic = _cfg14(spec["inner"])
-    scripts = cq.lst(cq.lst(c14._req_term(ic, r) for r in sc) for sc in spec["inner"]["scripts"])
-    return f"(SOpt {cfg} {script} (Some ({c14.cfg_term(ic)}, {scripts})))"
+        t = f"(SEval {c14.cfg_term(c)} {cq.lst(c14._req_term(c, r) for r in c['script'])})"
+    else:
+        t = f"(SOpt {c14.tree_term(c14.root(c))})"
+    return f"({cq.nat(spec['sid'])}, {t})"
 
 
 def _entry(e):
@@ -540,13 +677,14 @@ def _entry(e):
 
 def _run_term(o):
     exits = cq.lst(f"({int(s)}, {int(c)})" for s, c in o["exits"]) + "%Z"
-    return (f"(Build_robs {cq.lst(_entry(e) for e in o['log'])}%Z {exits} {cq.b(o['flags'][0])} {cq.b(o['flags'][1])} "
+    return (f"(Build_robs {cq.lst(_entry(e) for e in o['log'])}%Z {exits} {cq.bs(o['flags'])} "
             f"{cq.b(o['probe'] == 'PlanAborted')} {cq.b('exc' in o)})")
 
 
 def coq_case(case, obs):
-    return (f"(Build_case {cq.nats(range(case['handlers'][0]))} {cq.nats(INNER_BASE + j for j in range(case['handlers'][1]))} "
-            f"{cq.nats(OBS_BASE + j for j in range(case['observers']))} {cq.lst(_step_term(s) for s in case['steps'])} "
+    plans = cq.lst(cq.nats(10 * j + i for i in range(n)) for j, n in enumerate(case["plans"]))
+    observers = cq.lst(f"({cq.nat(ob['id'])}, {cq.zs(_events_of(ob))})" for ob in case["observers"])
+    return (f"(Build_case {plans} {observers} {cq.lst(_step_term(s) for s in case['steps'])} {cq.b(bool(case.get('basic')))} "
             f"{cq.opt(case['k'], cq.nat)} {_run_term(obs['full'])} {_run_term(obs['run'])})")
 
 
@@ -557,30 +695,39 @@ def nontrivial(case, obs):
     return case["k"] is not None and case["k"] < len(obs["full"]["log"])
 
 
+def _raiser(who):
+    if who == CALL:
+        return "evaluator"
+    if who == ABORT_CB:
+        return "abort-callback"
+    if who == RESULTS_CB:
+        return "results-callback"
+    if who >= OBS_BASE:
+        return "observer"
+    return f"handler-level{who // 10}"
+
+
 def features(case, obs):
     D, k = obs["full"]["log"], case["k"]
-    at = "none"
+    at, rcpt = "none", "none"
     if k is not None and k < len(D):
         who, sid, ev = D[k]
         at = "evaluator-call" if who == CALL else {1: "START_EVALUATION", 2: "FINISHED_EVALUATION", 3: "START_OPTIMIZER_STEP",
                                                     4: "FINISHED_OPTIMIZER_STEP", 5: "START_EVALUATOR_STEP",
-                                                    6: "FINISHED_EVALUATOR_STEP"}[ev] + ("/inner" if sid >= 100 else "")
-        rcpt = "evaluator" if who == CALL else ("observer" if who >= OBS_BASE else ("inner-handler" if who >= INNER_BASE else "outer-handler"))
-    else:
-        rcpt = "none"
+                                                    6: "FINISHED_EVALUATOR_STEP"}[ev] + (f"/level{sid // 100}" if sid >= 100 else "")
+        rcpt = _raiser(who)
     return {"scenario": case["name"] if not case["name"].startswith("random") else "random", "abort_at": at, "raiser": rcpt,
-            "layout": f"{case['handlers']}/{case['observers']}", "log_len": min(80, 10 * (len(D) // 10))}
+            "layout": f"{case['plans']}/{[ob['events'] if ob['events'] == 'all' else len(ob['events']) for ob in case['observers']]}",
+            "log_len": min(120, 20 * (len(D) // 20)), "entry": "BasicOptimizer" if case.get("basic") else "Plan",
+            "depth": _depth(case["steps"])}
 
 
 def shrink(case):
     if len(case["steps"]) > 1:
         for i in range(len(case["steps"])):
-            yield {**case, "steps": case["steps"][:i] + case["steps"][i + 1:], "k": case["k"]}
-    if case["handlers"] != [1, 1] or case["observers"] != 1:
-        yield {**case, "handlers": [1, 1], "observers": 1}
-    for i, s in enumerate(case["steps"]):
-        if len(s["script"]) > 1 and s.get("inner") is None:
-            yield {**case, "steps": case["steps"][:i] + [{**s, "script": s["script"][:-1]}] + case["steps"][i + 1:]}
+            rest = case["steps"][:i] + case["steps"][i + 1:]
+            if all(s["sid"] <= j for j, s in enumerate(rest)):
+                yield {**case, "steps": _number([{**s, "sid": None} for s in rest]) if all(s["sid"] == j for j, s in enumerate(case["steps"])) else rest}
     if case["k"] is not None and case["k"] > 0:
         yield {**case, "k": case["k"] - 1}
 
@@ -588,29 +735,37 @@ def shrink(case):
 def search(rng, case):
     if case is None:
         return
-    for k in range(0, 60):
+    for k in range(0, 80):
         yield {**case, "k": k}
 
 
 MANIFEST = {
     "level_text": ("Machine-checked Coq proof about the executable delivery / abort machine of plan runs (Model/Events.v: Plan.emit_event "
-                   "recipient order, run_step with START / body / FINISHED, latched Plan._aborted, nested plans; step bodies compiled from the "
-                   "C14 machine), for every world of handlers and observers, every sequence of steps with arbitrary nesting and EVERY abort "
-                   "index: the aborted run's log is the unaborted log cut after the aborting entry followed by the FINISHED events of the open "
-                   "steps, innermost first (C15_prefix_closure), the plan is marked aborted, every step containing the entry returns "
-                   "USER_ABORT and every later run_step is refused (C15_abort_latches, C15_aborted_step_reports_user_abort, "
-                   "C15_once_aborted_every_step_refused, C15_unaborted); every run_step log starts with its START and ends with its FINISHED "
-                   "event whatever the abort index (C15_step_bracketed); evaluation events alternate START/FINISHED and a START stays unmatched "
-                   "only when the evaluator raised or aborted inside it (C15_evaluations_paired, C15_evaluator_step_events); events go to the "
-                   "emitting plan's handlers, then the ancestors', then the observers, each exactly once (C15_delivery_order, "
-                   "C15_delivery_members, C15_delivered_once).  Tied to the code on every run by an in-Coq correspondence over real Plans in "
-                   "which every delivery index and evaluator call of every scenario is used as the abort point."),
+                   "recipient order with observers registered per event type, run_step with START / body / FINISHED, latched "
+                   "Plan._aborted, nested plans to any depth; step bodies compiled from the C14 machine), for every world of handlers "
+                   "and observers, every sequence of steps with arbitrary nesting and EVERY abort index: the aborted run's log is the "
+                   "unaborted log cut after the aborting entry followed by the FINISHED events of the open steps, innermost first "
+                   "(C15_prefix_closure), no step at any depth stays open (C15_all_steps_closed), the plan is marked aborted, every "
+                   "step containing the entry returns USER_ABORT and every later run_step is refused (C15_abort_latches, "
+                   "C15_aborted_step_reports_user_abort, C15_once_aborted_every_step_refused, C15_unaborted); every run_step log starts "
+                   "with its START and ends with its FINISHED event whatever the abort index (C15_step_bracketed); evaluation events "
+                   "alternate START/FINISHED and a START stays unmatched only when the evaluator raised or aborted inside it "
+                   "(C15_evaluations_paired, C15_evaluator_step_events); events go to the emitting plan's handlers, then the "
+                   "ancestors', then the observers of that event type, each exactly once (C15_delivery_order, C15_delivery_members, "
+                   "C15_delivered_once).  Tied to the code on every run by an in-Coq correspondence over real Plans (nesting depth "
+                   "<= 3, steps re-run, BasicOptimizer with its abort / results callbacks) in which every delivery index and evaluator "
+                   "call of every scenario is used as the abort point; the prefix-closure, all-closed and block predicates are also "
+                   "evaluated in Coq on the implementation's logs alone."),
     "level_note": ("Trusted / modelled, not verified: handlers, observers and the evaluator do nothing but raise OptimizationAborted(USER_ABORT) "
                    "at the chosen log index; other exceptions from handlers are outside the property; step bodies come from Model/Step.v "
-                   "(C14); nesting depth in the correspondence is 2 (the theorems hold for any program tree); wf/quiet side conditions are "
-                   "evaluated by the checker on every compiled scenario.  Trusted: Coq kernel + VM, the recording handler plug-in, observers "
-                   "and scripted optimizer of harness/props/C15.py and C14.py.  All theorems print 'Closed under the global context'."),
-    "technique": ("Coq proof (simulation invariant by induction over program trees: aborted log = prefix + closure; latching by induction over "
-                  "step sequences) + exhaustive-over-abort-points in-Coq differential correspondence with real Plan runs"),
+                   "(C14); nesting depth in the correspondence is 3 (the theorems hold for any program tree); the wf/quiet/non-empty-"
+                   "recipient side conditions of the theorems are evaluated by the checker on every compiled scenario (hypotheses_ok), "
+                   "not proved for the compiler.  BasicOptimizer.run() called twice on one object registers its callbacks twice (each "
+                   "event reaches them twice): reported, no alarm under the weakest reading, the stream is disabled (BASIC_RERUN).  "
+                   "Trusted: Coq kernel + VM, the recording handler plug-in, observers, callbacks and scripted optimizer of "
+                   "harness/props/C15.py and C14.py.  All theorems print 'Closed under the global context'."),
+    "technique": ("Coq proof (simulation invariant by induction over program trees: aborted log = prefix + closure; stack invariant over "
+                  "every log prefix; latching by induction over step sequences) + exhaustive-over-abort-points in-Coq differential "
+                  "correspondence with real Plan / BasicOptimizer runs"),
     "design_ref": "DESIGN.md section 4, C15",
 }
